@@ -304,9 +304,12 @@ def allSigParams : List ClassDef → List (String × Bool)
   | [] => []
   | b :: bs => sigParams b.sig ++ allSigParams bs
 
-/-- `bases_params` (name, is-required), first base wins; `**kwargs` never survives -/
+/-- `bases_params` (name, is-required): a name keeps the position of its first declaration and is
+    required as soon as ANY base requires it (a later base that requires what an earlier base
+    declares optional upgrades it); `**kwargs` never survives -/
 def basesParams (w : World) (src : ClassSrc) : List (String × Bool) :=
-  dedupKeys (allSigParams (structBases w src))
+  let all := allSigParams (structBases w src)
+  (dedupKeys all).map fun p => (p.1, all.any fun q => q.1 == p.1 && q.2)
 
 def basesRequired (w : World) (src : ClassSrc) : List String :=
   ((basesParams w src).filter (·.2)).map (·.1)
@@ -376,20 +379,23 @@ def requiredOwn (src : ClassSrc) : List String :=
         (own.filter fun p => !p.2.hasDefault && !src.optional.contains p.1).map (·.1)
       else [])
 
-def requiredOf (w : World) (src : ClassSrc) : List String :=
-  dedupStr (basesRequired w src ++ requiredOwn src)
+/-- `cls_dict[_required]` as `StructMeta.__new__` uses it: after the class object exists, every name
+    whose Field object — own or inherited — has a default is dropped ("every field that has a default
+    value is, by definition, optional") -/
+def requiredEff (w : World) (src : ClassSrc) : List String :=
+  (requiredOwn src).filter fun n =>
+    match lookup n (allFieldsOf w src) with
+    | some m => !m.hasDefault
+    | none => true
 
-def sigOf (w : World) (src : ClassSrc) : Sig :=
-  let names := (ownMembers src.entries).map (·.1)
-  let consts := (constantsOf (resolvedFields w src)).map (·.1)
-  let bp := (basesParams w src).map (·.1)
-  let br := basesRequired w src
-  let req := requiredOwn src
-  { req := dedupStr (bp.filter (fun n => (req.contains n || br.contains n) && !consts.contains n)
-                      ++ (names ++ bp).filter (fun n => !consts.contains n && req.contains n))
-    opt := dedupStr (bp.filter (fun n => !req.contains n && !br.contains n && !consts.contains n)
-                      ++ names.filter (fun n => !req.contains n && !consts.contains n))
-    kwargs := src.addl.getD true }
+/-- Constants (as `getattr` sees them) that some base lists in its `_required`: the signatures of
+    the bases do not carry them, they are added back -/
+def inheritedRequiredConsts (w : World) (src : ClassSrc) : List String :=
+  ((constantsOf (resolvedFields w src)).map (·.1)).filter fun n =>
+    (baseDefs w src).any fun b => b.required.contains n
+
+def requiredOf (w : World) (src : ClassSrc) : List String :=
+  dedupStr (basesRequired w src ++ requiredEff w src ++ inheritedRequiredConsts w src)
 
 /-- first class in the MRO tail that sets the attribute in its own `__dict__` -/
 def inheritedOpt (w : World) (get : ClassDef → Option Bool) : List String → Option Bool
@@ -398,6 +404,18 @@ def inheritedOpt (w : World) (get : ClassDef → Option Bool) : List String → 
     match (w.find n).bind get with
     | some b => some b
     | none => inheritedOpt w get rest
+
+def sigOf (w : World) (src : ClassSrc) : Sig :=
+  let names := (ownMembers src.entries).map (·.1)
+  let consts := (constantsOf (resolvedFields w src)).map (·.1)
+  let bp := (basesParams w src).map (·.1)
+  let br := basesRequired w src
+  let req := requiredEff w src
+  { req := dedupStr (bp.filter (fun n => (req.contains n || br.contains n) && !consts.contains n)
+                      ++ (names ++ bp).filter (fun n => !consts.contains n && req.contains n))
+    opt := dedupStr (bp.filter (fun n => !req.contains n && !br.contains n && !consts.contains n)
+                      ++ names.filter (fun n => !req.contains n && !consts.contains n))
+    kwargs := (src.addl.orElse fun _ => inheritedOpt w (·.ownAddl) (mroTail w src)).getD true }
 
 def build (w : World) (src : ClassSrc) : ClassDef :=
   let tail := mroTail w src
@@ -497,7 +515,7 @@ def constCheck (p : String × Member) : R Unit :=
 
 /-- "optional cannot override prior required in the class or in a base class" -/
 def optionalCheck (w : World) (src : ClassSrc) : R Unit :=
-  if src.optional.any (fun f => (requiredOwn src).contains f || (basesRequired w src).contains f)
+  if src.optional.any (fun f => (requiredEff w src).contains f || (basesRequired w src).contains f)
   then .error .valueErr else okU
 
 def blockedAttr : AttrVal → Bool
